@@ -4,7 +4,7 @@
 From Coq Require Import List NArith.
 From PT Require Import Model.Base Model.Stack Model.Texpr Model.Sem Model.Aparse Model.Ast Model.Translate Model.PegSpec Model.GenEnv.
 From PT Require Import Proofs.GenWitness Proofs.PegSimBase Proofs.PegSimFwd Proofs.RefineCor Proofs.PegMain.
-From PT Require Import Proofs.BoundaryOps Proofs.Boundary Proofs.RefinePanic Proofs.PegMain2.
+From PT Require Import Proofs.BoundaryOps Proofs.Boundary Proofs.RefinePanic Proofs.PegMain2 Model.Wf Proofs.PegSimRev Proofs.PegMain3.
 Import ListNotations.
 
 (* Main theorem.  For every grammar [g] (pest_meta's optimized AST) whose WHITESPACE / COMMENT cannot tell the
@@ -77,6 +77,43 @@ Theorem C01_example_wf :
   try_parse_partial (env_of 0 ex_g (inp_of_str ex_in1) (fun _ _ => false)) 40 1 <> Fuel.
 Proof. exact typed_is_peg_wf_example. Qed.
 Print Assumptions C01_example_wf.
+
+(* TOTAL form: no premise about either run.  For a well-founded grammar -- one accepted by the verified certificate checker
+   [wf_cert] of C11 (Model/Wf.v) -- both runs end, and on all large enough fuels the real prefix parse agrees with pest's PEG
+   semantics: same verdict, same offset, same stack; neither panics ([agrees_with_peg] excludes PFuel and PPanic).
+   Ingredients: C11 (the typed run ends within [fuel_bound]), the BACKWARD simulation (PegSimRev.v: the spec run ends whenever the
+   typed run does, under the same side conditions), and C01_typed_is_peg_wf. *)
+Theorem C01_total : forall g eoi I pred rules c,
+  ws_ok g = true -> eoi_fresh eoi g = true -> good_inp I -> glits_ok g ->
+  wf_cert rules (e_rules (env_of eoi g I pred)) (e_skip (env_of eoi g I pred)) c = true ->
+  forall r, callable eoi g r = true -> In r rules ->
+  exists n m, forall n' m', n <= n' -> m <= m' ->
+    match peg_entry (penv_of eoi g I pred) n' r with
+    | POk pos stk _ => exists t st', try_parse_partial (env_of eoi g I pred) m' r = Ok (pos, t) st' /\ cache (Sem.stk st') = stk
+    | PFail => exists st', try_parse_partial (env_of eoi g I pred) m' r = Fail st'
+    | PPanic => False
+    | PFuel => False
+    end.
+Proof. exact typed_is_peg_total. Qed.
+Print Assumptions C01_total.
+
+(* the spec run ends whenever the typed run does (every grammar with ws_ok, valid UTF-8) *)
+Theorem C01_spec_ends_if_typed_ends : forall g eoi I pred,
+  ws_ok g = true -> eoi_fresh eoi g = true -> good_inp I -> glits_ok g ->
+  forall r, callable eoi g r = true -> forall m,
+  try_parse_partial (env_of eoi g I pred) m r <> Fuel ->
+  exists n, forall n', n <= n' ->
+    peg_entry (penv_of eoi g I pred) n' r <> PFuel /\ peg_entry (penv_of eoi g I pred) n' r <> PPanic.
+Proof. exact peg_ends_if_typed_ends. Qed.
+Print Assumptions C01_spec_ends_if_typed_ends.
+
+Theorem C01_total_example :
+  let E := env_of 0 ex_g (inp_of_str ex_in1) (fun _ _ => false) in
+  ws_ok ex_g = true /\ eoi_fresh 0 ex_g = true /\ good_inp (inp_of_str ex_in1) /\ glits_ok ex_g /\
+  wf_cert [1; 2; 3]%N (e_rules E) (e_skip E) (infer_cert [1; 2; 3]%N (e_rules E) (e_skip E)) = true /\
+  callable 0 ex_g 1 = true /\ In 1%N [1; 2; 3]%N.
+Proof. exact typed_is_peg_total_example. Qed.
+Print Assumptions C01_total_example.
 
 (* the forward simulation for every expression in every context (what the main theorem is an instance of) *)
 Theorem C01_simulation : forall g eoi I pred,
